@@ -266,8 +266,14 @@ Definition match_poly (d : nat) (c o : cond) : option mcond :=
         first_some (fun k =>
           if scale_ok (c_op c) k then
             let dk := pscale k dc in
-            let lm := filter (fun t => mono_in (snd t) lo) dk in
-            let rm := pneg (filter (fun t => negb (mono_in (snd t) lo)) dk) in
+            (* left part: the monomials printed on the left; a monomial printed on both sides shares the
+               discrepancy evenly; the right part is whatever makes  left - right = k (c.l - c.r)  exact *)
+            let lm := map (fun t =>
+                        let m := snd t in
+                        if mono_in m ro
+                        then (Qred (fst t + (coef m dk - (fst t - coef m ro)) / 2), m)
+                        else (coef m dk, m)) lo in
+            let rm := psub lm dk in
             if close_b tol lm lo && close_b tol rm ro then Some (MPoly (c_op c) lm rm) else None
           else None) (ratios dout dc)
   | _, _, _, _ => None
@@ -308,18 +314,11 @@ Definition trivial (c : cond) : bool :=
   | _ => false
   end.
 
-Inductive cover_result := CFail | COmitted | CBy (m : mcond).
-
-Definition cover (d : nat) (eqs : list cond) (out : list cond) (c : cond) : cover_result :=
-  match first_some (match_cond d eqs c) out with
-  | Some m => CBy m
-  | None => if trivial c then COmitted else CFail
-  end.
+(* all the ways an input condition is printed: one "mid" per output condition that matches it *)
+Definition cover (d : nat) (eqs : list cond) (out : list cond) (c : cond) : list mcond :=
+  somes (map (match_cond d eqs c) out).
 
 Definition is_eq (c : cond) : bool := cmp_eqb (c_op c) CEq.
-
-Definition mids (rs : list cover_result) : list mcond :=
-  flat_map (fun r => match r with CBy m => [m] | _ => [] end) rs.
 
 (* structural equality of expressions with exact constants *)
 Fixpoint expr_eqb (a b : expr) : bool :=
@@ -352,9 +351,9 @@ Definition rounds_to (d : nat) (m : mcond) (o : cond) : bool :=
    conditions so obtained. *)
 Definition check_pre (d : nat) (conds out : list cond) : bool :=
   let eqs := filter is_eq conds in
-  let rs := map (fun c => cover d (if is_eq c then [] else eqs) out c) conds in
-  forallb (fun r => match r with CFail => false | _ => true end) rs &&
-  forallb (fun o => existsb (fun m => rounds_to d m o) (mids rs)) out.
+  let f := fun c => cover d (if is_eq c then [] else eqs) out c in
+  forallb (fun c => match f c with [] => trivial c | _ => true end) conds &&
+  forallb (fun o => existsb (fun m => rounds_to d m o) (flat_map f conds)) out.
 
 (* one inequality under explicitly given assumptions (simplify_inequality's own interface) *)
 Definition check_under (d : nat) (assumptions : list cond) (c o : cond) : option mcond :=
